@@ -20,6 +20,7 @@ import (
 	"github.com/apernet/quic-go/congestion"
 	"verif.local/engine/evidence"
 	"verif.local/engine/vnet"
+	"verif.local/engine/vpriv"
 	"verif.local/engine/vquic"
 	vh3 "verif.local/engine/vquic/http3"
 	"verif.local/engine/vsched"
@@ -66,6 +67,20 @@ func c10Inspect(c *vquic.Conn) c10Installed {
 	cc := c.Congestion()
 	if cc == nil {
 		return in
+	}
+	// a wrapper around the sender (a struct with one congestion.CongestionControl(Ex) field) is
+	// looked through: what matters here is which sender runs and at which rate
+	for i := 0; i < 4; i++ {
+		if n := reflect.TypeOf(cc).String(); strings.Contains(n, "BrutalSender") || strings.Contains(n, "bbrSender") {
+			break
+		}
+		if inner, ok := vpriv.FieldByType[congestion.CongestionControl](cc); ok && inner != nil {
+			cc = inner
+		} else if innerEx, ok := vpriv.FieldByType[congestion.CongestionControlEx](cc); ok && innerEx != nil {
+			cc = innerEx
+		} else {
+			break
+		}
 	}
 	t := reflect.TypeOf(cc).String()
 	v := reflect.ValueOf(cc).Elem()
